@@ -950,7 +950,7 @@ def run(rep):
     found += kbad
     found += stage_oracle_duplicates(rep, rng, 2000 if thorough else 300)
     found += stage_system(rep, rng, 40 if thorough else 6, 6 if thorough else 1)
-    if dis and not found:
+    if dis and not rep.n_with_input:
         st, call, iv, mv = dis[0]
         rep.fail('%s - model and implementation disagree (%d cases), e.g. %r: impl %r, model %r' % (st, len(dis), call, iv, mv),
                  {'obligation': st, 'call': call, 'impl': iv, 'model': mv, 'n_disagreements': len(dis)}, found_input=False)
